@@ -50,7 +50,8 @@ func StrProps(propContainer map[string]object.PanObject) map[string]object.PanOb
 					return object.BuiltInFalse
 				}
 
-				if self.Hash() == other.Hash() {
+				// NOTE: compare values (hashes of different strs may collide)
+				if self.Value == other.Value {
 					return object.BuiltInTrue
 				}
 
